@@ -206,7 +206,7 @@ TagNameId(tag) == IF tag = TagWght THEN IdWeight ELSE IF tag = TagWdth THEN IdWi
                   ELSE IF tag = TagSlnt THEN IdSlant ELSE IdOpt
 StatAxes(axes, rev) ==
   LET n == Len(axes)
-  IN [k \in 1 .. n |-> IF rev THEN <<axes[n + 1 - k][1], TagNameId(axes[n + 1 - k][1]), n - k>>      \* ordering: later axis first
+  IN [k \in 1 .. n |-> IF rev THEN <<axes[n + 1 - k][1], TagNameId(axes[n + 1 - k][1]), k - 1>>      \* the last fvar axis is named first
                        ELSE <<axes[k][1], TagNameId(axes[k][1]), k - 1>>]
 Point(tag, a) ==      \* one table per named value
   IF tag = TagWght THEN << F1(a, 0, IdThin, Fx(100)), F1(a, 2, IdRegular, Fx(400)), F1(a, 0, IdBold, Fx(700)), F1(a, 0, IdBlack, Fx(900)) >>
